@@ -135,6 +135,11 @@ def registration(ctx) -> None:
     ctx.check('self.select(expression)' in text, 'C14.registration', filt, 'filter() also registers the columns of the expression', filt.node, key='filter:select')
     ctx.check('expression.factors.items()' in text and '.factors.add(factor)' in text, 'C14.registration', filt, 'filter() registers the factor of each table with that table', filt.node, key='filter:factors')
     own_key_rule(ctx, 'C14.registration')
+    # columns are filed under the origin of the very column that is filed (the segment visit_table reads)
+    sel = prog.func(f'{PARSER}:Container.Context.Tables.select')
+    adds = [c for c in core.calls_in(sel.node) if isinstance(c.func, ast.Attribute) and c.func.attr == 'add' and core.src(c.func.value).endswith('.fields')]
+    okf = bool(adds) and all(isinstance(c.func.value.value, ast.Subscript) and core.src(c.func.value.value.slice) == f'{core.src(c.args[0])}.origin' for c in adds)
+    ctx.check(okf, 'C14.registration', sel, 'a column is registered in the segment of its own origin (self[field.origin].fields.add(field)): after re-attributing a referenced element to its base table the base table segment must receive it', adds[0] if adds else sel.node, key='select:own-origin')
     # the only reader
     vt = prog.func(f'{PARSER}:Visitor.visit_table')
     text = core.src(vt.node)
